@@ -326,8 +326,14 @@ func c12Explore(src *choice.Src) *core.Result {
 		// "sizes match their declarations" is one of the restrictions: an archive whose data contradict the
 		// declarations may be refused by the zip check although its listing alone is acceptable (if it is
 		// accepted, that is judged below against what extraction does)
-		if checkOK != wantOK && !(!dataMatches && !checkOK && wantOK) {
-			res.Fail("C12", "checkzip-iff-restrictions", "the zip check does not accept exactly the archives that satisfy the documented restrictions",
+		if !checkOK && wantOK {
+			// The property demands that what violates a restriction is refused (and that extraction follows
+			// the zip check); it does not say that the zip check accepts everything else. Archives that
+			// Create produces must be accepted: that is C05's business.
+			res.Probes["zip-check-refused-an-archive-the-listed-restrictions-allow"]++
+		}
+		if checkOK && !wantOK {
+			res.Fail("C12", "checkzip-iff-restrictions", "the zip check accepts an archive that violates a documented restriction",
 				"CheckZip error=%v; by the documented rules the archive is acceptable=%v (%s; module valid=%v); entries %v", zerr, wantOK, viol, mod.valid, listingDesc(listing))
 			return c12Done(res, mod.m.String(), source, targetState, entries, archive)
 		}
